@@ -41,7 +41,7 @@ ASSUMPTIONS = ['numpy polynomial evaluation in the documented nutils_poly coeffi
                'level sets of the trimmed topologies keep cuts away from vertices; graded knot values are (0,1,3,7,15)',
                'linear independence is judged by singular values > 1e-8 relative; equality tolerance 1e-9 relative',
                'hierarchical bases with non-default knot vectors and trimming after hierarchical refinement (documented as possibly dependent) are not enumerated']
-BUDGET_S = {'quick': 400, 'thorough': 3000}
+BUDGET_S = {'quick': 1800, 'thorough': 14400}   # guard for a heavily shared machine; an idle 16-core box needs ~2 / ~12 minutes
 
 GRADED = [0, 1, 3, 7, 15, 31]
 
@@ -407,14 +407,18 @@ def fam_tensor(tier):
             hier = 'hier' in a or 'hier' in b
             simplex = a['k'] != 'rect'
             for p in (1, 2):
-                yield case(topo, 'std', degree=p)
                 yield case(topo, 'discont', degree=p)
+                if not hier:
+                    yield case(topo, 'std', degree=p)     # the plain types are not defined on hierarchical factors
                 if not simplex:
-                    yield case(topo, 'spline', degree=p)
+                    if not hier:
+                        yield case(topo, 'spline', degree=p)
                     yield case(topo, 'th-spline', degree=p)
                     yield case(topo, 'h-spline', degree=p)
+                else:
+                    yield case(topo, 'th-std', degree=p)
             yield case(topo, 'discont', degree=0)
-            if not simplex:
+            if not simplex and not hier:
                 yield case(topo, 'spline', degree=[2] * (nda - 1) + [2, 1])
                 yield case(topo, 'spline', degree=[1] * (nda - 1) + [0, 3])
 
@@ -567,6 +571,10 @@ def key_of(oracle, c, stats):
             # a periodic direction of one or two elements is special: an element is its own neighbour / two elements share two interfaces
             ns = {topo['shape'][i] << topo.get('refine', 0) for i in per}
             kind += '-periodic' + ('2' if 2 in ns else '1' if 1 in ns else '')
+    if impl == 'c0-structured' and kind.endswith('periodic2') and not d:
+        # one root cause whatever wraps the basis: _basis_c0_structured pairs edges through connectivity, which is ambiguous
+        # when two elements share two interfaces (a periodic direction of two elements)
+        return '{}:c0-structured:two-elements-sharing-two-interfaces'.format(oracle)
     parts.append(kind)
     return ':'.join(parts)
 
